@@ -3,7 +3,7 @@
     (same answer for the same operation; malformed envelopes refused, nothing executed).
     Executable only (extracted / vm_compute). *)
 From Coq Require Import List NArith ZArith Bool String.
-From ApiFu Require Import Base.Sexp Transport.EnvelopeModel Transport.JsonText Transport.EnvelopeSpec.
+From ApiFu Require Import Base.Sexp Transport.EnvelopeModel Transport.JsonText Transport.EnvelopeSpec Transport.WireModel Transport.FrameText.
 Import ListNotations.
 Open Scope string_scope.
 
@@ -82,30 +82,34 @@ Inductive env := EHttp (e : envelope) | EWs (p : proto) (did_init : bool) (f : o
 Definition dec_pair (s : sexp) : option (bytes * bytes) :=
   match s with SL [SStr k; SStr v] => Some (k, v) | _ => None end.
 
+Definition dec_ws (p di fr : sexp) : option env :=
+  match (if is_sym "gws" p then Some GraphqlWS else if is_sym "tws" p then Some TransportWS else None), as_bool di with
+  | Some p', Some di' =>
+      if is_sym "bad-frame" fr then Some (EWs p' di' None)
+      else match tagged "frame" fr with
+           | Some [ty; id; pl] =>
+               match as_bytes ty, as_bytes id, as_option as_bytes pl with
+               | Some ty', Some id', Some pl' => Some (EWs p' di' (Some {| f_type := ty'; f_id := id'; f_payload := pl' |}))
+               | _, _, _ => None
+               end
+           | _ => None
+           end
+  | _, _ => None
+  end.
+
 Definition dec_env (s : sexp) : option env :=
   match untag s with
-  | Some (t, [m; media; SL ps; b]) =>
+  | Some (t, [a1; a2; a3; a4]) =>
       if String.eqb t "http" then
-        match as_bytes m, as_bytes media, map_opt dec_pair ps, as_bytes b with
-        | Some m', Some md, Some ps', Some b' => Some (EHttp {| e_method := m'; e_media := md; e_url := ps'; e_body := b' |})
-        | _, _, _, _ => None
+        match a3 with
+        | SL ps =>
+            match as_bytes a1, as_bytes a2, map_opt dec_pair ps, as_bytes a4 with
+            | Some m', Some md, Some ps', Some b' => Some (EHttp {| e_method := m'; e_media := md; e_url := ps'; e_body := b' |})
+            | _, _, _, _ => None
+            end
+        | _ => None
         end
-      else None
-  | Some (t, [p; di; fr]) =>
-      if String.eqb t "ws" then
-        match (if is_sym "gws" p then Some GraphqlWS else if is_sym "tws" p then Some TransportWS else None), as_bool di with
-        | Some p', Some di' =>
-            if is_sym "bad-frame" fr then Some (EWs p' di' None)
-            else match tagged "frame" fr with
-                 | Some [ty; id; pl] =>
-                     match as_bytes ty, as_bytes id, as_option as_bytes pl with
-                     | Some ty', Some id', Some pl' => Some (EWs p' di' (Some {| f_type := ty'; f_id := id'; f_payload := pl' |}))
-                     | _, _, _ => None
-                     end
-                 | _ => None
-                 end
-        | _, _ => None
-        end
+      else if String.eqb t "ws" then dec_ws a1 a2 a3
       else None
   | _ => None
   end.
@@ -142,11 +146,31 @@ Definition dec_dobs (s : sexp) : option dobs :=
   | _ => None
   end.
 
+Definition dec_wire (s : sexp) : option wobs :=
+  match untag s with
+  | Some (t, [ct; cl; b]) =>
+      if String.eqb t "wire-http" then
+        match as_bytes ct, as_Z cl, as_bytes b with
+        | Some ct', Some cl', Some b' => Some (WoHttp ct' cl' b')
+        | _, _, _ => None
+        end
+      else None
+  | Some (t, [SL fs; SL rs]) =>
+      if String.eqb t "wire-ws" then
+        match map_opt as_bytes fs, map_opt as_bytes rs with
+        | Some fs', Some rs' => Some (WoWs fs' rs')
+        | _, _ => None
+        end
+      else None
+  | Some (t, []) => if String.eqb t "wire-none" then Some WoNone else None
+  | _ => None
+  end.
+
 Definition dec_obs (s : sexp) : option obs :=
   match tagged "obs" s with
-  | Some [k; SL ps; c; r; h] =>
-      match untag k, map_opt as_bytes ps, as_bool c, as_bytes r, as_bytes h with
-      | Some (kt, [code]), Some ps', Some c', Some r', Some h' =>
+  | Some [k; SL ps; c; r; h; w] =>
+      match untag k, map_opt as_bytes ps, as_bool c, as_bytes r, as_bytes h, dec_wire w with
+      | Some (kt, [code]), Some ps', Some c', Some r', Some h', Some w' =>
           match as_Z code with
           | Some z =>
               let kind := if String.eqb kt "status" then KStatus z
@@ -154,25 +178,33 @@ Definition dec_obs (s : sexp) : option obs :=
                           else if String.eqb kt "ignored" then KIgnored
                           else if String.eqb kt "closed" then KClosed z
                           else KOther in
-              Some {| ob_kind := kind; ob_payloads := ps'; ob_completed := c'; ob_resolvers := r'; ob_hooks := h' |}
+              Some {| ob_kind := kind; ob_payloads := ps'; ob_completed := c'; ob_resolvers := r'; ob_hooks := h'; ob_wire := w' |}
           | None => None
           end
-      | _, _, _, _, _ => None
+      | _, _, _, _, _, _ => None
       end
   | _ => None
   end.
 
 Record sub := {
   s_transport : string; s_role : string; s_label : string;
-  s_env : env; s_dec : dobs; s_obs : list obs
+  s_env : env; s_dec : dobs; s_obs : list obs;
+  s_raw : bytes       (* sockets: the frame text *)
 }.
+
+(** the text of the frame that was sent (sockets) *)
+Definition dec_raw (s : sexp) : bytes :=
+  match untag s with
+  | Some (_, [_; _; _; SStr raw]) => raw
+  | _ => []
+  end.
 
 Definition dec_sub (s : sexp) : option sub :=
   match tagged "sub" s with
   | Some [t; r; l; e; d; SL os] =>
       match as_sym t, as_sym r, as_sym l, dec_env e, dec_dobs d, map_opt dec_obs os with
       | Some t', Some r', Some l', Some e', Some d', Some os' =>
-          Some {| s_transport := t'; s_role := r'; s_label := l'; s_env := e'; s_dec := d'; s_obs := os' |}
+          Some {| s_transport := t'; s_role := r'; s_label := l'; s_env := e'; s_dec := d'; s_obs := os'; s_raw := dec_raw e |}
       | _, _, _, _, _, _ => None
       end
   | _ => None
@@ -228,7 +260,7 @@ Definition run_model (T : ntable) (e : env) : mres :=
                | Accept r => MAccept (op_of_request r) (r_ext r)
                | Reject c => MReject c
                end
-  | EWs p di f => match handle_message (tbl_parse Jsoniter T) p di f with
+  | EWs p di f => match handle_message (tbl_parse StdJson T) p di f with
                   | WsStart id q v n => MStart id {| o_query := q; o_vars := v; o_opname := n |}
                   | WsIgnored => MIgnored
                   | WsClosed c => MClosed c
@@ -275,12 +307,34 @@ Definition api_agrees (m : mres) (o : obs) : bool :=
   | _, _ => false
   end.
 
+(** the answer on the wire against the model's framing (WireModel): an accepted HTTP envelope is
+    answered 200 with [http_frame (HttpOK body)] (Content-Type, Content-Length = the body's length);
+    a refused one with the Content-Type of [http_frame (HttpError c)]; on a socket the frames
+    received for the operation are exactly [ws_frame] of the data / next payloads followed by complete *)
+Definition proto_of_env (e : env) : proto := match e with EWs p _ _ => p | EHttp _ => GraphqlWS end.
+
+Definition wire_agrees (e : env) (m : mres) (o : obs) : bool :=
+  match m, ob_wire o with
+  | MAccept _ _, WoHttp ct cl body =>
+      let w := http_frame (HttpOK body) in
+      bytes_eqb ct (hw_ctype w) && Z.eqb cl (Z.of_nat (List.length body)) && negb (is_empty body)
+  | MReject c, WoHttp ct _ _ => bytes_eqb ct (hw_ctype (http_frame (HttpError c)))
+  | MStart id _, WoWs frames raws =>
+      list_eqb bytes_eqb frames
+        (map (ws_frame (proto_of_env e)) (List.app (map (WsData id) raws) (if ob_completed o then [WsComplete id] else [])))
+      && ob_completed o
+  | MIgnored, WoWs frames _ => match frames with [] => true | _ => false end
+  | MClosed _, WoWs frames _ => match frames with [] => true | _ => false end
+  | _, WoNone => true
+  | _, _ => false
+  end.
+
 Definition well_formed (T : ntable) (e : env) : bool :=
   match e with
   | EHttp h => http_well_formed (tbl_parse StdJson T) h
   | EWs p di f =>
       di && match f with
-            | Some fr => bytes_eqb (f_type fr) (start_type p) && ws_well_formed (tbl_parse Jsoniter T) f
+            | Some fr => bytes_eqb (f_type fr) (start_type p) && ws_well_formed (tbl_parse StdJson T) f
             | None => false
             end
   end.
@@ -295,6 +349,46 @@ Definition accepted_op (m : mres) : option op :=
 Definition name_of (s : sub) : string :=
   if String.eqb (s_role s) "canonical" then s_transport s
   else s_transport s ++ "/" ++ s_label s.
+
+(** ** the frame level: the model splits the frame text itself ([FrameText.frame_of_text]); the
+    harness's own split (type / id / raw payload, or "not a message") is a second opinion *)
+Definition frame_eqb (a b : option frame) : bool :=
+  match a, b with
+  | None, None => true
+  | Some x, Some y =>
+      bytes_eqb (f_type x) (f_type y) && bytes_eqb (f_id x) (f_id y) &&
+      match f_payload x, f_payload y with
+      | None, None => true
+      | Some u, Some v => bytes_eqb u v
+      | _, _ => false
+      end
+  | _, _ => false
+  end.
+
+Definition refit (T : ntable) (s : sub) : sub :=
+  match s_env s with
+  | EWs p di _ =>
+      {| s_transport := s_transport s; s_role := s_role s; s_label := s_label s;
+         s_env := EWs p di (frame_of_text (numval_of T) (s_raw s)); s_dec := s_dec s; s_obs := s_obs s; s_raw := s_raw s |}
+  | EHttp _ => s
+  end.
+
+(** the harness's payload text may carry white space around the value; json.RawMessage does not *)
+Definition trim_frame (f : option frame) : option frame :=
+  match f with
+  | Some x => Some {| f_type := f_type x; f_id := f_id x;
+                      f_payload := match f_payload x with
+                                   | Some t => Some (rev (skip_ws (rev (skip_ws t))))
+                                   | None => None
+                                   end |}
+  | None => None
+  end.
+
+Definition frame_split_ok (T : ntable) (s : sub) : bool :=
+  match s_env s with
+  | EWs _ _ hf => frame_eqb (frame_of_text (numval_of T) (s_raw s)) (trim_frame hf)
+  | EHttp _ => true
+  end.
 
 (** ** per-submission checks *)
 Fixpoint first_some {A B} (f : A -> option B) (l : list A) : option B :=
@@ -312,11 +406,11 @@ Definition jparse_eqb (a b : jparse) : bool :=
   | _, _ => false
   end.
 
-Definition flavour_of (e : env) : flavour := match e with EHttp _ => StdJson | EWs _ _ _ => Jsoniter end.
+Definition flavour_of (e : env) : flavour := match e with EHttp _ => StdJson | EWs _ _ _ => StdJson end.
 
 Definition oracle_sub (J : jtable) (T : ntable) (s : sub) : option sexp :=
   if negb (forallb (fun t => forallb (fun tok => match num_find T tok with Some _ => true | None => false end)
-                                     (num_tokens (List.length t) t)) (needed_texts (s_env s))) then
+                                     (num_tokens (List.length t) t)) (s_raw s :: needed_texts (s_env s))) then
     Some (v_bad "number-table-incomplete")
   else if negb (forallb (fun t => match tbl_find J t with
                                   | Some p => jparse_eqb (tbl_parse (flavour_of (s_env s)) T t) p
@@ -334,6 +428,8 @@ Definition check_sub (T : ntable) (o : op) (s : sub) : option sexp :=
     Some (v_mismatch ("decoder:" ++ name_of s) [])
   else if negb (forallb (api_agrees m) (s_obs s)) then
     Some (v_mismatch ("outcome:" ++ name_of s) [])
+  else if negb (forallb (wire_agrees (s_env s) m) (s_obs s)) then
+    Some (v_mismatch ("wire:" ++ name_of s) [])
   else if String.eqb (s_role s) "canonical" &&
           negb (match m with
                 | MAccept o' None => op_eqb o o'
@@ -372,6 +468,33 @@ Fixpoint check_same (es : list entry) : option sexp :=
       | None => check_same r
       end
   end.
+
+(** Spec oracle, beyond the canonical envelopes: the same bytes as POST application/json body
+    (no ?query=) and as start / subscribe payload on an initialised connection: whatever
+    NewRequestFromHTTP accepts, the socket decoder must hand to HandleStart as the same operation
+    (judged on what the implementation's decoders did, not on the model) *)
+Definition same_text_pair (s1 s2 : sub) : option sexp :=
+  match s_env s1, s_env s2 with
+  | EHttp h, EWs p true (Some f) =>
+      if bytes_eqb (e_method h) m_post && bytes_eqb (e_media h) mt_json && is_empty (url_get k_query (e_url h)) &&
+         bytes_eqb (f_type f) (start_type p) &&
+         match f_payload f with Some t => bytes_eqb t (e_body h) | None => false end then
+        match s_dec s1 with
+        | DAccept q v n _ =>
+            match s_dec s2 with
+            | DStart _ q' v' n' =>
+                if op_eqb {| o_query := q; o_vars := v; o_opname := n |} {| o_query := q'; o_vars := v'; o_opname := n' |} then None
+                else Some (v_oracle_fail ("same-text-differs:" ++ s_label s1) [])
+            | _ => Some (v_oracle_fail ("same-text-differs:" ++ s_label s1) [])
+            end
+        | _ => None
+        end
+      else None
+  | _, _ => None
+  end.
+
+Definition check_same_text (ss : list sub) : option sexp :=
+  first_some (fun s1 => first_some (same_text_pair s1) ss) ss.
 
 (** every transport that can carry the operation must be among the canonical submissions *)
 Definition has_canonical (ss : list sub) (t : string) : bool :=
@@ -432,11 +555,13 @@ Definition check (c : sexp) : sexp :=
               | Some vars =>
                   let o := {| o_query := q'; o_vars := vars; o_opname := n' |} in
                   if negb (canonical_complete o is_sub subs) then v_bad "missing-canonical-transport"
+                  else if negb (forallb (frame_split_ok T) subs) then v_bad "frame-split-disagrees"
                   else
+                    let subs := map (refit T) subs in
                     match first_some (oracle_sub J T) subs with
                     | Some v => v
                     | None =>
-                        match check_same (entries T 0 subs) with
+                        match (match check_same (entries T 0 subs) with Some v => Some v | None => check_same_text subs end) with
                         | Some v => v
                         | None =>
                             match first_some (check_sub T o) subs with
